@@ -7,6 +7,7 @@ use crate::snode::{SNode, SNodeSpec};
 use crate::util;
 use discv5::enr::NodeId;
 use discv5::verif::{self as v, HandlerIn, HandlerOut};
+use std::net::SocketAddr as _SA;
 use discv5::{Enr, IpMode, ListenConfig, NodeAddress};
 use serde_json::json;
 use std::collections::{BTreeMap, BTreeSet, HashMap};
@@ -313,6 +314,106 @@ async fn run_async(cfg: &ACfg, hist: &[AEv]) -> Outcome<AEv> {
     Outcome { fp, enabled: enabled.into_iter().map(|e| (e, 0)).collect(), obs_chain: chain, violation, counters, terminal: None, steps: full.len() as u64 }
 }
 
+/* ------------------------------------------------------------------------------------ */
+/* Handler level: an incoming session is reported as established only if the address in   */
+/* the record equals the address the packets came from (single stack, IPv4 and IPv6)      */
+/* ------------------------------------------------------------------------------------ */
+
+async fn handshake_case(ipv6: bool, src_variant: u8, rec_variant: u8) -> Result<(bool, bool), Violation> {
+    use crate::hsim::{Ev, HCfg, Monitors, NoDriver, World};
+    use discv5::verif::VPacket;
+    use discv5::NodeContact;
+    let cfg = HCfg { nodes: 1, ipv6, ..Default::default() };
+    let mut w = World::build(&cfg, Monitors { c03: false, c04: false, c13: false, c15: false, c19: false }).await;
+    let d = NoDriver;
+    let mkey = util::key(170);
+    let mid = util::node_id(&mkey);
+    let sock = |ip_last: u16, port: u16| -> SocketAddr {
+        if ipv6 { SocketAddr::new(Ipv6Addr::new(0x2001, 0xdb8, 0, 0, 0, 0, 0, ip_last).into(), port) } else { SocketAddr::new(Ipv4Addr::new(10, 0, 0, ip_last as u8).into(), port) }
+    };
+    let src = match src_variant {
+        0 => sock(0x70, 30303),
+        _ => sock(0x70, 1), // lowest port
+    };
+    // record address relative to the source
+    let rec_addr: Option<SocketAddr> = match rec_variant {
+        0 => Some(src),                                   // equal
+        1 => Some(SocketAddr::new(src.ip(), src.port().wrapping_add(1).max(2))), // same ip, other port
+        2 => Some(sock(0x71, src.port())),               // other ip, same port
+        3 => None,                                        // no address of this family
+        _ => Some(sock(0x71, 9)),                         // both differ
+    };
+    let mut spec = util::EnrSpec { seq: 3, ..Default::default() };
+    match rec_addr {
+        Some(SocketAddr::V4(a)) => spec.ip4 = Some((*a.ip(), a.port())),
+        Some(SocketAddr::V6(a)) => spec.ip6 = Some((*a.ip(), a.port())),
+        None => {
+            // an address of the *other* family only: irrelevant to a single-stack check
+            if ipv6 { spec.ip4 = Some((Ipv4Addr::new(10, 0, 0, 0x70), 30303)) } else { spec.ip6 = Some((Ipv6Addr::new(0x2001, 0xdb8, 0, 0, 0, 0, 0, 0x70), 30303)) }
+        }
+    }
+    let rec = util::enr(&mkey, &spec);
+    // 1. a message from M, 2. the application knows nothing, 3. V's WHOAREYOU, 4. M's handshake
+    let p = VPacket::new_random(&mid);
+    let bytes = p.clone().encode(&w.nodes[0].id);
+    w.deliver_raw(0, src, &bytes, 0, p.message_nonce, -1).await;
+    w.absorb().await;
+    if w.nodes[0].way_queries.is_empty() {
+        return Err(Violation { clause: "harness".into(), key: "c12h:no-query".into(), detail: "no who-are-you query".into(), replay: json!(null) });
+    }
+    w.step(&Ev::AnsWay(0, false), &d).await;
+    let chal = w.snap(0).and_then(|s| s.challenges.first().cloned());
+    let chal = match chal {
+        Some(c) => c,
+        None => return Err(Violation { clause: "harness".into(), key: "c12h:no-challenge".into(), detail: "no challenge".into(), replay: json!(null) }),
+    };
+    let mode = if ipv6 { IpMode::Ip6 } else { IpMode::Ip4 };
+    let vcontact = NodeContact::try_from_enr(w.nodes[0].enr.clone(), mode).expect("contact");
+    let msg = v::Request { id: v::RequestId(vec![7]), body: v::RequestBody::Ping { enr_seq: 3 } }.encode();
+    let (hp, _, _) = v::encrypt_with_header(&vcontact, util::key(170), Some(rec.clone()), &mid, &chal.challenge_data, &msg).expect("handshake");
+    let nonce = hp.message_nonce;
+    let hb = hp.encode(&w.nodes[0].id);
+    for e in w.last_raw.iter_mut() {
+        e.clear();
+    }
+    w.deliver_raw(0, src, &hb, 2, nonce, -1).await;
+    w.absorb().await;
+    let established = w.last_raw[0].iter().any(|r| matches!(r, HandlerOut::Established(e, a, v::ConnectionDirection::Incoming) if e.node_id() == mid && *a == src));
+    let unverifiable = w.last_raw[0].iter().any(|r| matches!(r, HandlerOut::UnverifiableEnr { node_id, .. } if *node_id == mid));
+    Ok((established, unverifiable))
+}
+
+fn handler_level(rep: &mut Report, found: &mut Vec<Violation>) {
+    let mut cases = 0u64;
+    let mut est = 0u64;
+    for ipv6 in [false, true] {
+        for src_variant in 0..2u8 {
+            for rec_variant in 0..5u8 {
+                cases += 1;
+                match rt::run(handshake_case(ipv6, src_variant, rec_variant)) {
+                    Ok((established, unverifiable)) => {
+                        let want = rec_variant == 0 || rec_variant == 3;
+                        if established {
+                            est += 1;
+                        }
+                        if established != want || unverifiable == want {
+                            found.push(Violation {
+                                clause: "in single-stack operation an incoming session admits a node only if the UDP address in its record equals the address its packets came from".into(),
+                                key: format!("admit:session-address:{}", if established { "established" } else { "refused" }),
+                                detail: format!("{} handler, record address variant {rec_variant} (0 equal, 1 same ip other port, 2 other ip same port, 3 none of this family, 4 both differ), source variant {src_variant}: Established={established} UnverifiableEnr={unverifiable}, expected Established={want}", if ipv6 { "IPv6" } else { "IPv4" }),
+                                replay: json!({"engine":"hsim","driver":"c12-handshake","ipv6":ipv6,"src_variant":src_variant,"rec_variant":rec_variant}),
+                            });
+                        }
+                    }
+                    Err(v) => found.push(v),
+                }
+            }
+        }
+    }
+    rep.set("handler_level_handshake_cases", cases);
+    rep.set("handler_level_established", est);
+}
+
 pub fn run() {
     let mut rep = Report::new("C12", "model_checking");
     let thorough = rep.thorough();
@@ -368,6 +469,7 @@ pub fn run() {
         }
         found.extend(vio);
     }
+    handler_level(&mut rep, &mut found);
     rep.set("states", states);
     rep.set("transitions", trans);
     rep.set("traces_validated_against_impl", execs);
@@ -383,7 +485,7 @@ pub fn run() {
         rep.set(&format!("activations_{k}"), *v);
     }
     rep.set("rule", "explicit-state BFS over histories of scripted handler reports (Established with 8 record shapes, UnverifiableEnr, NODES answers to lookup requests and to ENR requests with 8 record shapes incl. the local record, PONG with lower/higher seq, RequestFailed) and user calls (add_enr incl. the local record, remove_node, disconnect_node, find_node) on a real Discv5, for every IP mode × 3 table filters; oracle over table_entries() after every step");
-    rep.assume("single-stack address check of incoming sessions (Established vs UnverifiableEnr) is the handler's decision and is checked by the handler engine");
+    rep.assume("the single-stack address clause is decided at the handler (Established vs UnverifiableEnr): a real IPv4 and a real IPv6 handler each receive a correctly signed handshake from a crafted peer under its own id for every combination of 2 source addresses × 5 record-address variants");
     for v in found {
         rep.violation(v);
     }
